@@ -286,7 +286,13 @@ where
                 self.emit(Event::ClearCache, EventData::ClearCache);
             }
         }
-        if sec != "g" || !self.has_auto_build_role_links_enabled() {
+        // nothing was removed: there is no link to take out of the role graph
+        // (delete_link would fail on unknown names, or drop a link that a
+        // different stored rule still asserts)
+        if sec != "g"
+            || !self.has_auto_build_role_links_enabled()
+            || !rule_removed
+        {
             return Ok(rule_removed);
         }
         #[cfg(not(feature = "incremental"))]
@@ -370,7 +376,10 @@ where
                 self.emit(Event::ClearCache, EventData::ClearCache);
             }
         }
-        if sec != "g" || !self.has_auto_build_role_links_enabled() {
+        if sec != "g"
+            || !self.has_auto_build_role_links_enabled()
+            || !rules_removed
+        {
             return Ok(rules_removed);
         }
         #[cfg(not(feature = "incremental"))]
